@@ -3,6 +3,7 @@ package main
 import (
 	"fmt"
 	"math/rand"
+	"net/http"
 	"strings"
 
 	"github.com/vicanso/pike/config"
@@ -298,7 +299,13 @@ func c14EndToEnd(r *hx.Run, rnd *rand.Rand, shapes []locSpec) {
 				q++
 				uri := fmt.Sprintf("%s?q=%d", u, q)
 				before := w.Farm.LogLen()
-				res := w.Cl.Do(hx.Req{Method: "POST", Addr: addr, Host: h, URI: uri, Body: []byte("x")})
+				rq := hx.Req{Method: "POST", Addr: addr, Host: h, URI: uri, Body: []byte("x")}
+				if q%3 == 0 {
+					// what a front proxy (or anybody) may add names another configured host: routing goes by Host
+					rq.Header = http.Header{"X-Forwarded-Host": {[]string{"h1", "h2", "h3"}[rnd.Intn(3)]}, "Forwarded": {"host=h2"}}
+					r.Add("e2e_requests_with_forwarded_host_headers", 1)
+				}
+				res := w.Cl.Do(rq)
 				fetches := w.Farm.LogSince(before)
 				want := refRoute(locs, names, h, uri)
 				r.Eval(1)
